@@ -1508,6 +1508,15 @@ func (s *Netceptor) handleRoutingUpdate(ri *routingUpdate, recvConn string) {
 		// Our peer is still trying to initialize
 		return
 	}
+	for conn, cost := range ri.Connections {
+		if cost < 0 {
+			// Link costs are positive by configuration.  A negative cost would make the shortest-path
+			// calculation in updateRoutingTable run forever, so such an update is not used at all.
+			s.Logger.SanitizedWarning("Ignoring routing update %s from %s via %s: negative cost for connection to %s\n", ri.UpdateID, ri.NodeID, recvConn, conn)
+
+			return
+		}
+	}
 	if ri.NodeID == s.nodeID {
 		verifhook.Emit(s.vn, "ru_self", "epoch", ri.UpdateEpoch, "susp", ri.SuspectedDuplicate, "id", ri.UpdateID, "via", recvConn)
 		if ri.UpdateEpoch == s.epoch {
